@@ -33,6 +33,15 @@ CLAIMED = {
                  "written only by the helpers in (online, target) order; each of the 17 helper call sites is guarded exactly by its documented cadence; chained copies are ordered.",
         "note": "Trusted: nnx.update / nnx.state / nnx.clone semantics; optax.incremental_update (leaf function re-derived in the thorough tier). Not decided: leaf-wise float values.",
     },
+    "C03": {
+        "technique": "static analysis: def-use + callee inlining into polynomial normal forms over role atoms (batch positions), gradient-dependence tracking through stop_gradient/argmax, call census of the bootstrap, object-identity role transfer to the training loops",
+        "level": "Decides for all batches and parameter values (formula identity, not numerics): each of the 10 critic losses regresses exactly one online prediction per head onto "
+                 "T == r + (1 - terminated) * gamma * B (MR.Q: (G + c*B*s')/s) with the documented bootstrap (census of module calls, role data, max/argmax-selection/min/clip/entropy), nothing "
+                 "but the prediction depends differentiably on the online critic, the regression form (squared / Huber of |P-T| / importance weighted) and unit coefficients, the SALE embedding loss, "
+                 "and at every train_step call the target-role parameters receive target objects of that loop.",
+        "note": "Trusted: optax/jnp operator semantics, stop_gradient, Batch field order (parsed). Not decided: float values, shapes (the (N,) vs (N,1) squeeze sites and the MR.Q encoder "
+                "roll-out loss are decided under C07/C12 by the shape engine), batch-size-1 behaviour of unqualified squeeze().",
+    },
 }
 
 NOT_APPLICABLE = {}
